@@ -235,6 +235,14 @@ func (s *LinearState) Add(ctx *Context, id string, x Map) (string, error) {
 		return id, err
 	}
 
+	// What is stored under this id might have expired without
+	// anybody having noticed.  Then it goes now, and properly
+	// (its record, its dependents), as in IndexedState: what
+	// depended on the expired fact does not depend on the new one.
+	if err = s.purgeStale(ctx, id); err != nil {
+		return "", err
+	}
+
 	// The hook first (as in IndexedState): what the hook refuses
 	// should not be in storage.
 	if s.addHook != nil {
@@ -264,6 +272,19 @@ func (s *LinearState) Add(ctx *Context, id string, x Map) (string, error) {
 	s.sunlock(ctx, false)
 
 	return id, nil
+}
+
+// purgeStale removes what is stored under the given id if that has
+// expired, the way an expiry that a read notices is dealt with.
+func (s *LinearState) purgeStale(ctx *Context, id string) error {
+	s.slock(ctx, false)
+	defer s.sunlock(ctx, false)
+	if stale, have := s.Facts[id]; have {
+		if _, err := s.expire(ctx, id, stale.M, 0); err != nil {
+			return err
+		}
+	}
+	return nil
 }
 
 func (s *LinearState) Rem(ctx *Context, id string) (bool, error) {
